@@ -357,6 +357,9 @@ func diffObj(mo *mObj, o *redisemu.SimObj) string {
 			if e1 != nil || e2 != nil || !floatNear(f1, f2) {
 				return fmt.Sprintf("value is %q, expected number %s", clipS(string(o.Str), 60), mo.S)
 			}
+			// the digits the implementation chose are adopted: commands that work on
+			// the bytes of the value (ranges, bits) are exact from here on
+			mo.S, mo.Float = string(o.Str), false
 		} else if mo.S != string(o.Str) {
 			return fmt.Sprintf("value is %q, expected %q", clipS(string(o.Str), 60), clipS(mo.S, 60))
 		}
